@@ -681,5 +681,5 @@ void one_case(vh::Ctx & c, uint64_t idx)
 
 int main(int argc, char ** argv)
 {
-  return vh::run(argc, argv, "C14", {20000, 800000}, one_case);
+  return vh::run(argc, argv, "C14", {60000, 800000}, one_case);
 }
